@@ -234,6 +234,8 @@ def e2e_text(ncols, lpos):
     from mc.checks.c09 import lcg_stream
     g = lcg_stream(3 + ncols)
     cols = [f'c{j}' if j % 2 else f'z{j}' for j in range(ncols)]
+    if ncols >= 3:
+        cols[1] = 'BRAND_RELEVANCE'      # an ordinary feature; only ' AND_REL ' (with blanks) marks a relation column
     names = list(cols)
     names.insert(lpos, 'label')
     lines = [','.join(names)]
